@@ -51,6 +51,8 @@ class ElectronicControlUnit:
         # held by the job thread while it serves one timer event and by remove_timer: once remove_timer has
         # returned the callback is not called any more, also when it is called from another thread
         self._timer_lock = threading.RLock()
+        # the same for message subscribers: held while one subscriber is called and by unsubscribe
+        self._subscriber_lock = threading.RLock()
         # serialises the address claim state machines of the CAs of this ECU between the job thread
         # (claim timer) and the thread that feeds received frames in
         self._address_claim_lock = threading.RLock()
@@ -159,9 +161,10 @@ class ElectronicControlUnit:
             Function to call when message is received.
         """
         # iterate over a copy: removing from the list that is being iterated skips entries
-        for dic in list(self._subscribers):
-            if dic['cb'] == callback:
-                self._subscribers.remove(dic)
+        with self._subscriber_lock:
+            for dic in list(self._subscribers):
+                if dic['cb'] == callback:
+                    self._subscribers.remove(dic)
 
 
     def add_ca(self, **kwargs):
@@ -381,10 +384,11 @@ class ElectronicControlUnit:
         # iterate over a copy: a callback may unsubscribe itself or others (which used to make the following
         # subscriber miss this message); a subscriber removed meanwhile is not called any more
         for dic in list(self._subscribers):
-            if not any(d is dic for d in self._subscribers):
-                continue
-            if (dic['dev_adr'] == None) or (dest == ParameterGroupNumber.Address.GLOBAL) or (callable(dic['dev_adr']) and dic['dev_adr'](dest)) or (dest == dic['dev_adr']):
-                dic['cb'](priority, pgn, sa, timestamp, data)
+            with self._subscriber_lock:
+                if not any(d is dic for d in self._subscribers):
+                    continue
+                if (dic['dev_adr'] == None) or (dest == ParameterGroupNumber.Address.GLOBAL) or (callable(dic['dev_adr']) and dic['dev_adr'](dest)) or (dest == dic['dev_adr']):
+                    dic['cb'](priority, pgn, sa, timestamp, data)
 
     def _is_message_acceptable(self, dest):
         for dic in self._subscribers:
